@@ -278,8 +278,8 @@ func applyPortsToEdge(from ast.Vertex, to *ast.Edge, edge basicEdge) {
 
 // addEdgeStmt adds the given edge statement to the graph.
 func (gen *simpleGraph) addEdgeStmt(dst encoding.Builder, stmt *ast.EdgeStmt) {
-	fs := gen.addVertex(dst, stmt.From)
-	ts := gen.addEdge(dst, stmt.To, stmt.Attrs)
+	// The edges of a chained edge statement are set by addEdge,
+	// so the handler must be in place before it is called.
 	defer func() {
 		switch e := recover().(type) {
 		case nil:
@@ -290,6 +290,8 @@ func (gen *simpleGraph) addEdgeStmt(dst encoding.Builder, stmt *ast.EdgeStmt) {
 			panic(fmt.Errorf("panic setting edge: %v", e))
 		}
 	}()
+	fs := gen.addVertex(dst, stmt.From)
+	ts := gen.addEdge(dst, stmt.To, stmt.Attrs)
 	for _, f := range fs {
 		for _, t := range ts {
 			edge := dst.NewEdge(f, t)
